@@ -199,8 +199,21 @@ func (t *transport) notifyAssemblerViolation(violation error, header [10]byte) {
 		s9.StreamCode(), s9.FunctionCode(), s9.WaitBit(),
 		t.rt.SessionID(), t.rt.NextSystemBytes(), s9.Item(),
 	)
-	if err == nil {
-		_ = t.rt.SendAsync(context.Background(), notice)
+	if err != nil {
+		return
+	}
+
+	// This runs on the line-engine goroutine (it is the assembler's notify callback), and SendAsync blocks
+	// while the async queue is full. That queue is drained by a goroutine that hands every frame to THIS
+	// engine (Write -> sendReqCh), so an unbounded wait here wedges the line for good: the engine waits for
+	// queue space, the drainer waits for the engine. Enqueue inline when there is room; otherwise let a
+	// goroutine of its own wait for it.
+	ctx, cancel := context.WithTimeout(context.Background(), 10*time.Millisecond)
+	err = t.rt.SendAsync(ctx, notice)
+	cancel()
+
+	if errors.Is(err, context.DeadlineExceeded) {
+		go func() { _ = t.rt.SendAsync(context.Background(), notice) }()
 	}
 }
 
